@@ -1,4 +1,5 @@
 import RotondaModel.Generated.BmpDispatch
+import RotondaModel.Generated.RibUpdate
 /-! Line driver of the extraction ties (`checks/Xextract.json`). One case per input line:
 `universe <area>` → the names of the enum variants the generated table of that area ranges over
 (the engine `xextract` prints the same list from an exhaustive Rust `match` over the real type). -/
@@ -7,6 +8,7 @@ open Rotonda.Generated
 def universeOf (area : String) : String :=
   match area with
   | "bmpdispatch" => " ".intercalate BmpDispatch.kindNames
+  | "ribupdate" => " ".intercalate RibUpdate.kindNames
   | _ => "unknown-area"
 
 def answer (line : String) : String :=
